@@ -2,6 +2,14 @@ NOTES = ('Bounded-exhaustive model checking of the real implementation; see DESI
          'Known genuine defects are listed in known_findings.json.')
 NOT_APPLICABLE = {}
 CHECKS = {
+ 'C09': dict(engine='E1', design_ref='2.1, 4/C09',
+    technique='stateless choice-tree exploration (replay-based DFS, deviation-bounded, state merging at load-step boundaries) of all environment answer histories fed to the real Newton-Raphson driver',
+    text='The real Analysis.static(NLgeom=True) is run to completion for every history of per-iteration residual answers (5-letter alphabet, all sequences up to a depth) and '
+         'every history of per-load-step outcomes (converge fast/late, diverge, too slow, iteration limit) up to a deviation bound, over a lattice of driver configurations; '
+         'on every complete execution the property itself is evaluated: equilibrium of every reported pair through the memoised residual function, strictly increasing load factors in (0,1], '
+         'snapshot immutability, termination within a horizon, end at 1 or legitimate minimum-increment stop, linear problems solved exactly.',
+    note='environment residuals are a deterministic function of (state, load factor) with magnitudes from a finite alphabet; the bound completed is reported in the evidence; '
+         'driver state for merging is read from the frame of _solver_NR (no source hook)'),
  'C01': dict(engine='E3', design_ref='4/C01',
     technique='exhaustive enumeration of all stacks over an 8-angle alphabet up to length 3 (quick) / 4 (thorough) x full product of thickness/material/offset/argument-form letters, real code vs tensor-rotation reference; differential edges between real executions',
     text='Every laminate of the enumerated space is built with the real read_stack and all six reported matrices are compared entry-wise with an '
